@@ -6,7 +6,7 @@ from tokutil import *  # noqa
 import h1tok_util as H
 
 ID = "C02"
-LEAN_MODULE = ["SCoda.Props.C02", "SCoda.Props.Glue", "SCoda.Props.C02b", "SCoda.Props.TokTie", "SCoda.Props.Defs"]
+LEAN_MODULE = ["SCoda.Props.C02", "SCoda.Props.Glue", "SCoda.Props.C02b", "SCoda.Props.TokTie", "SCoda.Props.TokTie2", "SCoda.Props.Defs"]
 LEVEL = "proof"
 CLAUSES = [
     ("the vocabulary maps its tokens one-to-one onto the consecutive ids 0..size-1 (for duplicate-free bins: known finding D16)",
@@ -29,13 +29,13 @@ CLAUSES = [
      ["SCoda.Glue.extract_channels"]),
     ("TIE BY TRANSLATION, tokeniser: MultiTrackLargeVocabularyNotelikeTokeniser is re-translated statement by statement on every run (Gen/TokFns.lean, tools/py2lean_tok.py: __init__, _construct_dictionary, tokenise with its closure _apply_rest as a fuelled loop, detokenise, get_info, encode, decode; f-strings as string concatenation, dicts as association lists, floats as exact rationals) and each translation is proved equal to the hand model the theorems above are about, on rendered token strings: _construct_dictionary never raises and stores exactly the model's vocabulary sequence (rendered) after the four literal ids, dictionary_size = the model's dictionarySize, __init__ fills defaults / sorts and de-duplicates (sorted(set(...)), repair of D31) / builds the vocabulary as the model configuration says; encode / decode = the model's id maps",
      ["SCoda.TokTie.constructDictionary_all", "SCoda.TokTie.constructDictionary_eq", "SCoda.TokTie.constructDictionary_dictionary", "SCoda.TokTie.dictionarySize_eq", "SCoda.TokTie.tokInit_eq'", "SCoda.TokTie.encode_eq", "SCoda.TokTie.decode_eq", "SCoda.TokTie.tokenise_eq", "SCoda.TokTie.detokenise_eq"]),
-    ("EVERY TOKENISER THE TRANSLATED __init__ CONSTRUCTS (repair of finding D31, tie by translation; the link for get_velocity_bins is the dumped table for velocity_bins = 1..64 — outside that range the translated __init__ answers 'outside the subset' and these theorems are silent, while Python builds such tokenisers too: audit round 4 C2; get_velocity_bins itself is tied for every n ≠ 0 by UtilTie.getVelocityBins_int): __init__ stores sorted(set(step_sizes)) / sorted(set(note_values)) "
+    ("EVERY TOKENISER __init__ CONSTRUCTS, FOR EVERY ARGUMENT LIST WITH velocity_bins ≠ 0 (repair of finding D31, tie by translation; the link for get_velocity_bins is the TRANSLATED function itself — Gen.Util.getVelocityBins, regenerated from util.py on every run and tied to its hand transcription by UtilTie.getVelocityBins_int — read as ints (TokLib.linkVelocityBinsFn), equal to the former 64-row table on 1..64 (TokLib3L.linkVelocityBinsFn_table); the translated __init__ SUCCEEDS for every velocity_bins ≠ 0, with velocity_bins many bins, none for a negative count (tokInit_eq_any, tokInit_total), and raises ZeroDivisionError for velocity_bins = 0 as the source does (tokInit_zero); closes audit round 4 C2): __init__ stores sorted(set(step_sizes)) / sorted(set(note_values)) "
      "(translated statement by statement: set(l) = the distinct elements, sorted(s) = ascending; the result does not depend on the order of a set); for every "
      "argument list - repeated entries included, unsorted, or None = the defaults - the object the translated __init__ returns has strictly ascending step sizes and "
      "note values with exactly the entries of the list passed, hence duplicate free: the hypotheses steps_nodup / values_nodup of CfgWF (under which the bijection "
      "theorems above are proved) hold for every tokeniser __init__ can build, they are no longer a condition on the caller's arguments; what is left of CfgWF as a "
-     "condition is that get_velocity_bins returned distinct bins (known finding D16b); a caller who passes duplicate-free lists gets what .sort() stored before",
-     ["SCoda.TokTie.tokInit_nodup", "SCoda.TokTie.tokInit_sorted", "SCoda.TokTie.tokInit_cfgWF", "SCoda.TokTie.tokInit_cfg", "SCoda.TokTie.initObj_of_nodup"]),
+     "condition is that get_velocity_bins returned distinct bins, a decidable condition on the NUMBER velocity_bins alone (tokInit_cfgWF_any; known finding D16b: 100 bins are distinct, 65 and 128 bins repeat 127 and dictionary_size overcounts — evaluated in the kernel and replayed); a caller who passes duplicate-free lists gets what .sort() stored before",
+     ["SCoda.TokTie.tokInit_nodup", "SCoda.TokTie.tokInit_sorted", "SCoda.TokTie.tokInit_cfgWF", "SCoda.TokTie.tokInit_cfg", "SCoda.TokTie.initObj_of_nodup", "SCoda.TokTie2.tokInit_eq_any", "SCoda.TokTie2.tokInit_zero", "SCoda.TokTie2.tokInit_total", "SCoda.TokTie2.tokInit_cfgWF_any", "SCoda.TokLib3L.linkVelocityBinsFn_eq", "SCoda.TokLib3L.linkVelocityBinsFn_zero", "SCoda.TokLib3L.linkVelocityBinsFn_table"]),
     ('render is injective on ALL tokens, signed fields included, so the rendered vocabulary has no duplicate key for every configuration with duplicate-free step sizes, note values and bins (negative arguments included; closes the last open statement of audit A9); _construct_dictionary is described by the construction sequence exactly on objects with _dictionary_size = 0 — a second call keeps ids 0..3 and renumbers the rest from the old size + 4 (replayed: the method is private and only called from __init__); generated decode / encode equal the model for EVERY configuration (duplicate keys: overwritten ids are missing from the inverse dictionary)',
      ["SCoda.Defs.render_injective_all", "SCoda.Defs.render_vocab_nodup_general", "SCoda.Defs.render_vocab_nodup_iff", "SCoda.Defs.constructDictionary_anyObject_iff", "SCoda.Defs.constructDictionary_anyObject_statement_false", "SCoda.Defs.constructDictionary_second_call", "SCoda.Defs.decode_general", "SCoda.Defs.decode_eq_all", "SCoda.Defs.decode_one", "SCoda.Defs.encode_eq_all"]),
 ]
@@ -45,7 +45,7 @@ RULE = ("configurations: 16 flag combinations x velocity_bins x tracks 1..3 x pi
         "closure is judged on pieces drawn on each configuration's own grid plus one piece per configuration that makes tokenise use every "
         "step size that fits a bar; the whole Python dictionary is compared with the model's rendered vocabulary entry by entry; "
         "non-trivial = every configuration (distinct)")
-ASSUMPTIONS = ["models: SCoda.vocabSeq / encodeTok / decodeId / render, tied by translation (TokTie.constructDictionary_*, encode_eq, decode_eq, Defs.decode_eq_all; velocity_bins 1..64) and by comparing the entire dictionary of every generated configuration"]
+ASSUMPTIONS = ["models: SCoda.vocabSeq / encodeTok / decodeId / render, tied by translation (TokTie.constructDictionary_*, encode_eq, decode_eq, Defs.decode_eq_all; every velocity_bins ≠ 0) and by comparing the entire dictionary of every generated configuration"]
 RANGES = [(60, 64), (21, 108), (0, 127), (60, 60)]
 VALUESETS = [None, [6, 12, 24], [24, 12, 6, 16, 8, 4, 36, 18, 9, 48, 96], [24, 48, 96, 144, 192], [12, 100, 7]]   # incl. values of three digits
 
